@@ -569,7 +569,7 @@ def membership_kernel(rep, pid):
     membership == pixel of the point in the deepest-level set, degrees/radians, non-finite never inside"""
     reg = sym_regions()
     rep.kernel('K-membership', functions=[F + ':Region.sky_within', F + ':Region.sky2ang', F + ':Region.radec2sky', F + ':Region.get_demoted'],
-               bounds='depth 1-3, all pixels below level-1 pixel 0 symbolic, before/after a query; all-sky depth-1 universe for non-finite positions',
+               bounds='depth 1-3, all pixels below level-1 pixel 0 symbolic, before/after a query, and query / set operation / query sequences (depth 1-2); all-sky depth-1 universe for non-finite positions',
                stubs=['healpy.ang2pix: real library on concrete points', 'np.isin -> per-element guard disjunction'])
     cases = []
     for D in (1, 2, 3):
@@ -587,6 +587,10 @@ def membership_kernel(rep, pid):
         for dep in range(1, D + 1):
             cases.append((h_addpix(reg, D, uni0, False, dep), dict(op='add_pixels', D=D, cachedA=False, pix_depth=dep)))
         cases.append((h_query(reg, D, uni0, False), dict(op='query', D=D, cachedA=False)))
+    # a region that has answered a query is edited and asked again (regions are reused between runs)
+    for D in (1, 2):
+        for op in ('union', 'without', 'intersect', 'symmetric_difference'):
+            cases.append((h_binop_queried(reg, op, D, universe(D)), dict(op=op, D=D, odepth=D, cachedA=False, cachedB=False, renorm=True, prequery=True)))
     for h, meta in cases:
         st, res = explore(h, workers=1, wall_s=120)
         rep.stats(st)
